@@ -239,6 +239,49 @@ def part_mixed(part):
     return st
 
 
+def part_mixed_user(_):
+    """(fresh fork) types without reference unit that are not predefined:
+    Money (with and without an active converter) and a user type; against
+    predefined types, both operand orders"""
+    from datetime import date
+    st = Stats()
+    w = World(catalogue=True)
+    for ev in (['cur', 'EUR'], ['cur', 'USD'], ['type', 'NR', None, None],
+               ['unit', 'NR', 'nr1', ['none']],
+               ['type', 'UB', 'ub0', None],
+               ['dtype', 'PPM', [['Money', 1], ['Mass', -1]], None, None],
+               ['unit', 'PPM', 'EUR/kg', ['derive', ['EUR', 'kg']]]):
+        r = w.apply(ev)
+        assert r[0] == 'ok', (ev, r)
+    from quantity.money import Money, MoneyConverter
+    conv = MoneyConverter(w.units['EUR'], lambda: date(2020, 1, 1))
+    conv.update(None, [(w.units['USD'], O.dec('D:1.25'), 1)])
+    mine = ['EUR', 'nr1', 'ub0', 'EUR/kg']
+    theirs = ['m', 'kg', '°C', 'B', 'kWh']
+
+    def sweep(tag):
+        pairs = [(a, b) for a in mine for b in theirs] + \
+            [(b, a) for a in mine for b in theirs] + \
+            [(a, b) for a in mine for b in mine
+             if w.um[a].tname != w.um[b].tname]
+        for s1, s2 in pairs:
+            for opname in list(OPS) + ['sum']:
+                st.paths += 1
+                st.transitions += 3
+                st.evaluations += 3
+                st.state(('mixed-user', tag, s1, s2, opname),
+                         nontrivial=True)
+                for x, y in ((2, 3), (0, 0), (F(0), 5)):
+                    for sig, msg in _mixed_one(w, s1, s2, opname, x, y):
+                        st.violation(sig + ':user-types' + tag, msg,
+                                     {'mixed_user': [s1, s2, opname, str(x),
+                                                     str(y), tag]})
+    sweep('')
+    with conv:
+        sweep(':converter-active')
+    return st
+
+
 def part_group(part, amts, triple_amts):
     tname, s1 = part
     st = Stats()
@@ -284,6 +327,10 @@ def part_temp(part, amts):
 
 
 def replay(case):
+    if 'mixed_user' in case:
+        from ..hist import fork_call
+        st = fork_call(part_mixed_user, 0)
+        return [(sig, ent[1]) for sig, ent in st.viol.items()]
     w = World(catalogue=True)
     if 'mixed' in case:
         return run_mixed(w, *case['mixed'])
@@ -302,6 +349,7 @@ def run(tier, seed):
     total = Stats()
     syms = list(O.UNIT_REF)
     total.merge(pmap(part_mixed, [syms[i::16] for i in range(16)]))
+    total.merge(pmap(part_mixed_user, [0], fresh=True))
     amts = A.pick(tier, seed)
     if tier == 'quick':
         amts = amts[:9] + amts[-3:]
